@@ -31,7 +31,7 @@ UNIT = dict(
         dict(id="signal_gate", kind="block", src=C, within="make_config", stmts_from="let signals: Vec<Signal> = action.signals().collect();",
              stmts_to="for signal in signals", free=["action", "signal_map", "show_events", "quit"], extra_bound=["action"],
              rules=dict(pre_subst=[("action.signals().collect()", "action.vx_signals()"), ("show_events();", ""), ("return quit(action);", "return vx_quit(action);")])),
-        dict(id="queue_task", kind="block", src=C, within="make_config", after="tokio::spawn({ let queued = queued.clone(); async move",
+        dict(id="queue_task", kind="block", src=C, within="make_config", after=["tokio::spawn(", "async move"],
              free=["job", "queued", "innerjob", "clear_screen", "outflags"], rules=dict(pre_subst=[(SETUP, "VxSetup")])),
         dict(id="on_busy", kind="block", src=C, within="make_config", after="let is_running = matches!(context.current, CommandState::Running { .. }); Box::new(async move",
              free=["job", "is_running", "on_busy", "stop_signal", "signal", "stop_timeout", "queued", "clear_screen", "outflags"],
